@@ -276,6 +276,11 @@ def _run_schedule(drops, merges, dim, V, cnt, log, tag):
         paths.append(path)
         # O5: conservation over the surviving set after every merge event
         Vt = math.fsum(vol(d.radius, dim) for d in survivors)
+        if not (Vt > 0 and math.isfinite(Vt)):
+            V.append(Violation("C11.O5", f"{tag} after merge {mi}: total volume {Vt!r} of the "
+                               f"surviving set differs from the initial {V0!r}",
+                               {**sig, "kind": "conservation"}))
+            return None
         Ct = [math.fsum(vol(d.radius, dim) * float(d.position[k]) for d in survivors) / Vt
               for k in range(dim)]
         tol = 1e-12 * n_done
